@@ -368,6 +368,19 @@ pub fn k02_sep(thorough: bool) -> Vec<G> {
     out
 }
 
+/// the same grammar reading its tokens by reference: any -> any_ref, select -> select_ref (borrowing inputs)
+pub fn by_ref(g: &G) -> G {
+    match g {
+        Any => AnyRef,
+        Select(s) => SelectRef(s),
+        o => map_children(o, &mut |c| by_ref(c)),
+    }
+}
+/// every grammar of the list that reads some token through any / select, rewritten to read it by reference
+pub fn by_ref_all(gs: &[G]) -> Vec<G> {
+    gs.iter().filter(|g| g.any_node(&|x| matches!(x, Any | Select(_)))).map(by_ref).collect()
+}
+
 /// links of an iterable chain: every kind of iterable parser, with items that emit / consume two tokens
 pub fn k02_parts(thorough: bool) -> Vec<Part> {
     let mut v = vec![];
@@ -447,7 +460,7 @@ pub fn map_children(g: &G, f: &mut dyn FnMut(&G) -> G) -> G {
         }
     }
     match g {
-        Just(_) | JustSeq(..) | Any | OneOf(_) | NoneOf(_) | Select(_) | End | Empty | Custom(..) | EmptyChoice | JustCtx | RecRef(_) => g.clone(),
+        Just(_) | JustSeq(..) | Any | OneOf(_) | NoneOf(_) | Select(_) | End | Empty | Custom(..) | EmptyChoice | JustCtx | RecRef(_) | AnyRef | SelectRef(_) => g.clone(),
         Map(a) => Map(bx(a)),
         To(a) => To(bx(a)),
         Ignored(a) => Ignored(bx(a)),
